@@ -64,8 +64,8 @@ def gen_case(rng, obs, tier):
     tops = []
     ncyc = len(paths)
     for _ in range(rng.choice([4, 6, 8, 12])):
-        kind = rng.choice(["move", "move", "move", "remove", "addown", "addend", "update", "update", "threeopt",
-                           "succ", "new"])
+        kind = rng.choice(["move", "move", "move", "remove", "addown", "addend", "update", "update", "update2",
+                           "update2", "threeopt", "succ", "new"])
         if kind == "move":
             tops.append(["move", rng.choice(vs), rng.randrange(ncyc + 1)])
         elif kind == "remove":
@@ -80,6 +80,17 @@ def gen_case(rng, obs, tier):
                 tops.append(["update", rng.choice(vs), "rsd", rng.choice(sds + obs.sdepots)])
             else:
                 tops.append(["update", rng.choice(vs), "red", rng.choice(obs.edepots)])
+        elif kind == "update2" and len(vs) >= 2:
+            # two vehicles updated in one schedule operation (mostly cycle neighbours after moves): the first one's end
+            # depot and the second one's start depot, i.e. the facing depots of a cycle edge
+            a, b = rng.sample(vs, 2)
+            tops.append(["move", a, 0])
+            tops.append(["move", b, 0])
+            tops.append(["update2", a, rng.choice(["red", "red", "rsd"]), None, b, rng.choice(["rsd", "rsd", "red"]), None])
+            for k in (3, 6):
+                tops[-1][k] = rng.choice(obs.edepots) if tops[-1][k - 1] == "red" else rng.choice(sds + obs.sdepots)
+        elif kind == "update2":
+            continue
         elif kind == "threeopt":
             i = rng.randrange(0, 3)
             j = rng.randrange(i + 1, i + 3)
